@@ -147,3 +147,41 @@ func (d *HostDialer) DialStream(ctx context.Context, addr conn.Addr, payload []b
 	}
 	return c, nil
 }
+
+// ReadBuf returns a read buffer of length m. In a minority of draws it is a short window of a much
+// larger arena (cap far beyond len, as with arena[off:off+m] or io.ReadFull(c, big[:n])); the
+// arena behind the window is filled with a canary that CheckReadBuf verifies.
+type ReadBuf struct {
+	B     []byte
+	arena []byte
+	off   int
+}
+
+const readBufCanary = 0xA5
+
+func NewReadBuf(s *simrt.Sim, m int) ReadBuf {
+	if !s.GenChance(48) {
+		return ReadBuf{B: make([]byte, m)}
+	}
+	front := s.Choose(3) * 7
+	tail := Pick(s, []int{1, 16, 4096, 70000, 140000})
+	arena := make([]byte, front+m+tail)
+	for i := range arena {
+		arena[i] = readBufCanary
+	}
+	s.Probe("util.readbuf.window-of-arena")
+	return ReadBuf{B: arena[front : front+m], arena: arena, off: front}
+}
+
+// Check reports what a Read that returned n did wrong with respect to the buffer, or "".
+func (r ReadBuf) Check(n int) string {
+	if n < 0 || n > len(r.B) {
+		return fmt.Sprintf("Read returned n = %d for a %d-byte buffer (cap %d)", n, len(r.B), cap(r.B))
+	}
+	for i, c := range r.arena {
+		if (i < r.off || i >= r.off+len(r.B)) && c != readBufCanary {
+			return fmt.Sprintf("Read into a %d-byte buffer (cap %d) wrote outside it, at offset %d relative to the buffer start", len(r.B), cap(r.B), i-r.off)
+		}
+	}
+	return ""
+}
